@@ -1,28 +1,151 @@
 (* C17 - trigger definitions round-trip, match totally, are never hidden by the filter.
-   STATE ON THE PINNED TREE: the model is faithful to eventtrigger.go as it is; two of the
-   theorems of DESIGN.md section 5 (C17_match_total, C17_filter_exists) are refuted on it.
-   This file only states theorems; proofs are in Proofs/. *)
-From Coq Require Import List NArith ZArith Bool String.
-From Verif Require Import Lib.Bytes Lib.Rlp Model.TriggerDef Proofs.TriggerDefLegacy.
+   The model (Model/TriggerDef.v) follows eventtrigger.go after the two repairs made by this
+   development (commits 2ce1f88 and 9dbf1bd in /repo, see known_findings/C17.json); the
+   refutations of the unrepaired functions are kept against their legacy_ copies.
+   This file only states the theorems; proofs are in Proofs/TriggerDef*.v. *)
+From Coq Require Import List NArith ZArith Bool String Lia.
+From Verif Require Import Lib.Bytes Lib.Rlp Model.TriggerDef.
+From Verif Require Import Proofs.TriggerDefRlp Proofs.TriggerDefMatch Proofs.TriggerDefCodec Proofs.TriggerDefLegacy.
 Import ListNotations.
 Open Scope string_scope.
 Open Scope list_scope.
 
-(* D11: Match panics on a valid definition (short data / pointer beyond the data / length
-   that makeslice refuses). *)
-Theorem C17_match_total_refuted :
-  exists d lg, wf_def d /\ legacy_validate d = true /\ legacy_match d lg = MPanic.
-Proof. exists d11_def, d11_log_short. pose proof legacy_match_panics. tauto. Qed.
-Print Assumptions C17_match_total_refuted.
+(* Every definition that passes Validate (and whose contract is an address, which the Go type
+   guarantees) is turned into an RLP item by the encoder, and the decoder's reading of that
+   item is the same definition. *)
+Theorem C17_item_roundtrip : forall d,
+  wf_def d -> validate d = true ->
+  exists it, to_item d = Some it /\ of_item it = Some d.
+Proof. exact item_roundtrip. Qed.
+Print Assumptions C17_item_roundtrip.
 
-(* D12: a definition that passes Validate (and round-trips through the codec) for which
+(* Byte level: MarshalBytes does not panic and UnmarshalBytes of its output returns the same
+   definition.  The only side condition is that the encoding is at most 2^64 bytes long (RLP
+   cannot express longer payloads; no Go slice is that long). *)
+Theorem C17_bytes_roundtrip : forall d,
+  wf_def d -> validate d = true ->
+  exists b, marshal d = Some b /\ ((blen b <= 18446744073709551616)%N -> unmarshal b = UOk d).
+Proof. exact bytes_roundtrip. Qed.
+Print Assumptions C17_bytes_roundtrip.
+
+(* the byte-level RLP fact used above, for every item *)
+Theorem C17_rlp_roundtrip : forall it,
+  (blen (encode it) < 18446744073709551616)%N -> decode (encode it) = DOk it.
+Proof. exact decode_encode. Qed.
+Print Assumptions C17_rlp_roundtrip.
+
+(* Whatever bytes UnmarshalBytes accepts, the result is a valid definition; and the model's
+   decoder never runs out of its fuel, for any input. *)
+Theorem C17_decoded_is_valid : forall b d,
+  unmarshal b = UOk d -> wf_def d /\ validate d = true.
+Proof. exact decoded_is_valid. Qed.
+Print Assumptions C17_decoded_is_valid.
+
+Theorem C17_decoder_fuel_suffices : forall b, unmarshal b <> UFuel.
+Proof. exact unmarshal_never_out_of_fuel. Qed.
+Print Assumptions C17_decoder_fuel_suffices.
+
+(* Match on a valid definition and ANY log (any topics, any data, any embedded offsets and
+   lengths): the result is yes or no, never a panic or an error; and every value GetValue
+   materialises is a topic of the log or at most max(32, |data|) bytes long (the only
+   allocation that depends on the log). wf_log: |data| <= 2^48, the Go runtime's maxAlloc. *)
+Theorem C17_match_total : forall d lg,
+  validate d = true -> wf_log lg ->
+  (exists b, match_def d lg = MOk b) /\
+  (forall p, In p (d_preds d) -> exists v, get_value p lg = VOk v /\
+       (zlen v <= Z.max 32 (zlen (l_data lg)) \/ In v (l_topics lg)))%Z.
+Proof. exact match_total. Qed.
+Print Assumptions C17_match_total.
+
+(* On well-formed data (every reference of the definition resolves inside the log as
+   docs/event.md describes: ref_value) Match is exactly the documented predicate:
+   same contract and every operator holds on its referenced value (matches_spec). *)
+Theorem C17_match_semantics : forall d lg,
+  validate d = true -> wf_log lg -> well_formed_for d lg ->
+  exists b, match_def d lg = MOk b /\ (b = true <-> matches_spec d lg).
+Proof. exact match_semantics. Qed.
+Print Assumptions C17_match_semantics.
+
+(* For every valid definition ToFilterQuery succeeds. *)
+Theorem C17_filter_exists : forall d,
+  validate d = true -> exists q, to_filter d = FOk q.
+Proof. exact filter_exists. Qed.
+Print Assumptions C17_filter_exists.
+
+(* Every log that matches passes the derived filter query under go-ethereum's filter rule
+   (for any definition for which a query exists, valid or not). *)
+Theorem C17_filter_sound : forall d lg q,
+  to_filter d = FOk q -> match_def d lg = MOk true ->
+  passes_filter (d_contract d) q lg = true.
+Proof. exact filter_sound. Qed.
+Print Assumptions C17_filter_sound.
+
+(* ---- the code as it was on the pinned tree ------------------------------------------------ *)
+
+(* D11: Match panicked on a valid definition (short data; also a pointer beyond the data and
+   a length that makeslice refuses, see Proofs/TriggerDefLegacy.v). *)
+Theorem C17_legacy_match_total_refuted :
+  exists d lg, wf_def d /\ legacy_validate d = true /\ wf_log lg /\ legacy_match d lg = MPanic.
+Proof.
+  exists d11_def, d11_log_short. pose proof legacy_match_panics.
+  repeat split; try tauto. unfold wf_log. vm_compute. discriminate.
+Qed.
+Print Assumptions C17_legacy_match_total_refuted.
+
+(* D12: a definition that passed Validate (and round-tripped through the codec) for which
    ToFilterQuery fails. *)
-Theorem C17_filter_exists_refuted :
+Theorem C17_legacy_filter_exists_refuted :
   exists d, wf_def d /\ legacy_validate d = true /\ to_filter d = FErr.
 Proof. exists d12_def. pose proof legacy_valid_without_filter. tauto. Qed.
-Print Assumptions C17_filter_exists_refuted.
+Print Assumptions C17_legacy_filter_exists_refuted.
 
-Example C17_refutations_concrete :
+(* ---- the hypotheses are satisfiable: one definition with a topic, a static and a dynamic
+   predicate, and a log that matches it ---------------------------------------------------- *)
+
+Definition ex_topic : bytes := hx "ddf252ad1be2c89b69c2b068fc378daa952ba7f163c4a11628f55a4df523b3ef".
+Definition ex_def : def :=
+  mkDef addrA [mkPred false 0 5 [] [ex_topic];          (* topic 0 == Transfer signature *)
+               mkPred false 4 4 [Some 100%Z] [];         (* first data word >= 100 *)
+               mkPred true 5 5 [] [hx "68656c6c6f"]].    (* second argument == "hello" *)
+Definition ex_log : log :=
+  mkLog addrA [ex_topic]
+    (hx "0000000000000000000000000000000000000000000000000000000000000064" ++
+     hx "0000000000000000000000000000000000000000000000000000000000000040" ++
+     hx "0000000000000000000000000000000000000000000000000000000000000005" ++
+     hx "68656c6c6f000000000000000000000000000000000000000000000000000000").
+
+Example C17_roundtrip_nonvacuous :
+  wf_def ex_def /\ validate ex_def = true /\
+  (exists b, marshal ex_def = Some b /\ unmarshal b = UOk ex_def /\ (blen b <= 18446744073709551616)%N).
+Proof.
+  split; [reflexivity|]. split; [vm_compute; reflexivity|].
+  eexists. split; [vm_compute; reflexivity|]. split; vm_compute; [reflexivity|discriminate].
+Qed.
+
+Example C17_match_nonvacuous :
+  validate ex_def = true /\ wf_log ex_log /\ well_formed_for ex_def ex_log /\
+  match_def ex_def ex_log = MOk true /\
+  match_def ex_def (mkLog addrA [ex_topic] (repeat 0%N 40)) = MOk false /\
+  to_filter ex_def = FOk [[ex_topic]] /\
+  passes_filter addrA [[ex_topic]] ex_log = true.
+Proof.
+  split; [vm_compute; reflexivity|]. split; [unfold wf_log; vm_compute; discriminate|].
+  split.
+  - intros p [<-|[<-|[<-|[]]]].
+    + eexists. apply RV_topic; reflexivity.
+    + eexists. apply RV_static; [reflexivity|reflexivity|].
+      unfold word_at. split; [vm_compute; discriminate|]. split; [vm_compute; discriminate|reflexivity].
+    + eexists. eapply RV_dynamic; try reflexivity.
+      * unfold word_at. split; [vm_compute; discriminate|]. split; [vm_compute; discriminate|reflexivity].
+      * unfold word_at. split; [vm_compute; discriminate|]. split; [vm_compute; discriminate|reflexivity].
+      * vm_compute. discriminate.
+  - repeat split; vm_compute; reflexivity.
+Qed.
+
+Example C17_legacy_refutations_concrete :
   legacy_match d11_def d11_log_pointer = MPanic /\ legacy_match d11_def d11_log_length = MPanic /\
-  legacy_match d12_def_empty (mkLog addrA [] []) = MOk true /\ to_filter d12_def_empty = FErr.
+  legacy_match d12_def_empty (mkLog addrA [] []) = MOk true /\ to_filter d12_def_empty = FErr /\
+  (* the repaired functions on the same inputs *)
+  match_def d11_def d11_log_short = MOk false /\ match_def d11_def d11_log_pointer = MOk false /\
+  match_def d11_def d11_log_length = MOk false /\ validate d12_def = false /\ validate d12_def_empty = false.
 Proof. repeat split; vm_compute; reflexivity. Qed.
